@@ -12,7 +12,7 @@ func init() {
 	register("C20", PropertyMeta{
 		Technique: "decision-table extraction over orderings of (address, length, capacity) + validation-dominates-mutation (SSA dominance) + allocation-length provenance + checkpoint field-order agreement",
 		Explanation: "Decides on mem/storage.go and storage_checkpoint.go: (1) the per-unit guard rejects address >= capacity in every ordering, without allocating; (2) Read and Write validate the whole range before touching any byte: every unit lookup and every copy is dominated by the success branch of a range validator whose decision table is `error iff length > 0 and (address >= capacity or length > capacity - address)` — a form that cannot wrap around the address space — so a failing access leaves the contents unchanged; " +
-			"(3) every allocation unit is created with exactly unitSize bytes, which is what SaveCheckpoint writes and LoadCheckpoint reads per unit; (4) Save and Load agree on the field order capacity, unit size, unit count, then (address, data) per unit, units written in sorted address order and Load installs the decoded map. (unit-arithmetic) unit base and offset are computed from unitSize by division and remainder only (no mask or shift, which would need a power-of-two size).",
+			"(3) every allocation unit is created with exactly unitSize bytes, which is what SaveCheckpoint writes and LoadCheckpoint reads per unit; (4) Save and Load agree on the field order capacity, unit size, unit count, then (address, data) per unit, units written in sorted address order and Load installs the decoded map. (unit-arithmetic) unit base and offset are computed from unitSize by division and remainder only (no mask or shift, which would need a power-of-two size). The unit size, which divides every address, is compared with 0 in the package (a zero unit size is refused).",
 		NotDecided:  "byte-for-byte equality of reads with an array model (value-level).",
 		Assumptions: []string{"the small-model domain {0..3} covers every ordering of address, length and capacity"},
 	}, runC20)
